@@ -226,7 +226,7 @@ func (p *idxProver) minLen(v ssa.Value, at ssa.Instruction) int {
 			}
 		}
 	}
-	if best >= 1 && first >= 0 && notOneChar[first] {
+	if best >= 1 && first >= 0 && (notOneChar[first] || p.notTheOneChar(v, at, first)) {
 		up(2) // non-empty, starts with c, is not "c"  =>  at least two bytes
 	}
 	for notLen[best] {
@@ -1142,6 +1142,16 @@ func (p *idxProver) collect(f *ssa.Function) []idxOb {
 				}
 			}
 		}
+		// s[:i+1][i]: the last element of a view that was just cut (or extended) to end there
+		if sl, isSl := x.(*ssa.Slice); isSl && sl.Low == nil && sl.High != nil {
+			if b, isB := sl.High.(*ssa.BinOp); isB && b.Op == token.ADD {
+				if one, okc := constInt(b.Y); okc && one == 1 && sameVal(b.X, idx) {
+					if lb0, okl0 := p.lowerBound(idx, in); okl0 && lb0 >= 0 {
+						return true, "index i of a view s[:i+1]"
+					}
+				}
+			}
+		}
 		lb, okl := p.lowerBound(idx, in)
 		if !okl || lb < 0 {
 			return false, fmt.Sprintf("index may be negative (lower bound %v known=%v)", lb, okl)
@@ -1236,6 +1246,9 @@ func (p *idxProver) collect(f *ssa.Function) []idxOb {
 					} else {
 						d = "constant high bound within the proved minimum length"
 					}
+				} else if mk, isMk := x.X.(*ssa.MakeSlice); isMk && mk.Cap != nil && canon(mk.Cap) == canon(x.High) {
+					// a slice may be extended up to its capacity: make(T, n, c)[:c]
+					d = "high bound is the capacity the slice was made with"
 				} else {
 					s, k, okr := p.upperRel(x.High, in)
 					if !okr || !sameVal(s, base) {
@@ -1554,4 +1567,59 @@ func (p *idxProver) onEdge(ph *ssa.Phi, i int, fn func(term ssa.Instruction)) {
 		return
 	}
 	fn(term)
+}
+
+// notTheOneChar: v is known not to be the one-character string "c" at `at`: by a branch fact, because v is the
+// result of trimming c away on one side (TrimRight(x, "/") never ends with '/', so it is not "/"), or — for a merged
+// value — because that holds for every alternative on its incoming edge.
+func (p *idxProver) notTheOneChar(v ssa.Value, at ssa.Instruction, c int) bool {
+	if p.depth > 12 {
+		return false
+	}
+	p.depth++
+	defer func() { p.depth-- }()
+	switch x := v.(type) {
+	case *ssa.Phi:
+		if len(x.Edges) == 0 {
+			return false
+		}
+		for i, e := range x.Edges {
+			if e == v {
+				continue
+			}
+			ok := false
+			p.onEdge(x, i, func(term ssa.Instruction) { ok = p.notTheOneChar(e, term, c) })
+			if !ok {
+				return false
+			}
+		}
+		return true
+	case *ssa.Call:
+		switch calleeName(x) {
+		case "strings.TrimRight", "strings.TrimLeft", "strings.Trim":
+			if cs, ok := constString(x.Call.Args[1]); ok && c < 128 && strings.IndexByte(cs, byte(c)) >= 0 {
+				return true
+			}
+		case "strings.TrimSpace":
+			if c == ' ' || c == '\t' || c == '\n' || c == '\r' {
+				return true
+			}
+		}
+	}
+	for _, f := range p.facts(at) {
+		b, ok := f.Cond.(*ssa.BinOp)
+		if !ok {
+			continue
+		}
+		for _, side := range [][2]ssa.Value{{b.X, b.Y}, {b.Y, b.X}} {
+			if sameVal(side[0], v) {
+				if s, okc := constString(side[1]); okc && len(s) == 1 && int(s[0]) == c {
+					if (b.Op == token.NEQ && f.True) || (b.Op == token.EQL && !f.True) {
+						return true
+					}
+				}
+			}
+		}
+	}
+	return false
 }
